@@ -241,9 +241,9 @@ fn uefi_error_record_violations() -> (u64, Vec<Violation>) {
             d.validation = 0xc3 ^ k;
             d.flags = 0xd4 ^ k;
             d.error_data_length = 0x0102_0304u32.wrapping_mul(round as u32 + 1);
-            d.fru_id = core::array::from_fn(|i| 0x10 + i as u8 + k);
-            d.fru_text = core::array::from_fn(|i| 0x40 + i as u8 + k);
-            d.timestamp = core::array::from_fn(|i| 0x70 + i as u8 + k);
+            d.fru_id = core::array::from_fn(|i| (0x10 + i as u8).wrapping_add(k));
+            d.fru_text = core::array::from_fn(|i| (0x40 + i as u8).wrapping_add(k));
+            d.timestamp = core::array::from_fn(|i| (0x70 + i as u8).wrapping_add(k));
             if round % 2 == 1 {
                 d.add_data(Box::new(0x1122_3344_5566_7788u64));
             }
